@@ -28,6 +28,7 @@ structure Cur where
   reap : RState ReapMap.St := .ok {}
   disp : RState DispMap.St := .ok {}
   fdisp : RState FifoDispMap.St := .ok {}
+  cap : RState CapMap.St := .ok {}
   ack : RState AckMap.St := .ok {}
   wake : RState WakeMap.St := .ok {}
   pool : RState PoolMap.St := .ok {}
@@ -104,10 +105,14 @@ def finish (sel : List String) (c : Cur) (e : EndInfo) : IO Unit := do
     | .ok _ => ("ok", [])
     | .na _ => ("na", [])
     | .rejected ln why => ("FifoDisp", [s!"M {c.idx} FifoDisp line={ln} {why}"])
-  let model := if model12 != "ok" && model12 != "na" then model12 else if model11 != "ok" && model11 != "na" then model11 else if model10 != "ok" && model10 != "na" then model10 else if model9 != "ok" && model9 != "na" then model9 else if model8 != "ok" && model8 != "na" then model8 else if model7 != "ok" && model7 != "na" then model7 else if model6 != "ok" && model6 != "na" then model6 else if model5 != "ok" && model5 != "na" then model5 else if model1 != "ok" && model1 != "na" then model1 else if model2 != "ok" && model2 != "na" then model2 else if model3 != "ok" && model3 != "na" then model3 else if model4 != "ok" && model4 != "na" then model4 else "ok"
-  let mlines := ml1 ++ ml2 ++ ml3 ++ ml4 ++ ml5 ++ ml6 ++ ml7 ++ ml8 ++ ml9 ++ ml10 ++ ml11 ++ ml12
+  let (model13, ml13) : String × List String := match c.cap with
+    | .ok _ => ("ok", [])
+    | .na _ => ("na", [])
+    | .rejected ln why => ("Cap", [s!"M {c.idx} Cap line={ln} {why}"])
+  let model := if model13 != "ok" && model13 != "na" then model13 else if model12 != "ok" && model12 != "na" then model12 else if model11 != "ok" && model11 != "na" then model11 else if model10 != "ok" && model10 != "na" then model10 else if model9 != "ok" && model9 != "na" then model9 else if model8 != "ok" && model8 != "na" then model8 else if model7 != "ok" && model7 != "na" then model7 else if model6 != "ok" && model6 != "na" then model6 else if model5 != "ok" && model5 != "na" then model5 else if model1 != "ok" && model1 != "na" then model1 else if model2 != "ok" && model2 != "na" then model2 else if model3 != "ok" && model3 != "na" then model3 else if model4 != "ok" && model4 != "na" then model4 else "ok"
+  let mlines := ml1 ++ ml2 ++ ml3 ++ ml4 ++ ml5 ++ ml6 ++ ml7 ++ ml8 ++ ml9 ++ ml10 ++ ml11 ++ ml12 ++ ml13
   let nas := (if model1 == "na" then 1 else 0) + (if model2 == "na" then 1 else 0) + (if model3 == "na" then 1 else 0)
-  IO.println s!"RESULT {c.idx}{summary} model={model} na={nas} obs={tr.length} lines={c.nlines} ph={c.ph} sh={c.sh} nt={nt} ms=Res:{model1},Job:{model2},Sig:{model3},Ack:{model4},Wake:{model5},Pool:{model6},Sig2:{model7},Metr:{model8},Trim:{model9},Reap:{model10},Disp:{model11},FifoDisp:{model12}"
+  IO.println s!"RESULT {c.idx}{summary} model={model} na={nas} obs={tr.length} lines={c.nlines} ph={c.ph} sh={c.sh} nt={nt} ms=Res:{model1},Job:{model2},Sig:{model3},Ack:{model4},Wake:{model5},Pool:{model6},Sig2:{model7},Metr:{model8},Trim:{model9},Reap:{model10},Disp:{model11},FifoDisp:{model12},Cap:{model13}"
   for m in mlines do IO.println m
   for v in viols do IO.println v
 
@@ -137,6 +142,7 @@ partial def loop (h : IO.FS.Stream) (sel : List String) (c : Cur) : IO Unit := d
                                reap := ReapMap.feed c.params.minIdle c.reap (c.nlines + 1) rl,
                                disp := DispMap.feed c.disp (c.nlines + 1) rl,
                                fdisp := FifoDispMap.feed c.fdisp (c.nlines + 1) rl,
+                               cap := CapMap.feed c.cap (c.nlines + 1) rl,
                                race := (if sel.contains "C19" then RaceMap.feed c.race rl else c.race),
                                ack := AckMap.feed c.ack (c.nlines + 1) rl,
                                wake := WakeMap.feed (c.params.kind == "plain" && (c.params.queues == ["pers"] || c.params.queues == ["persprio"] || c.params.queues == ["dist"] || c.params.queues == ["distprio"])) c.wake (c.nlines + 1) rl,
@@ -150,7 +156,7 @@ partial def loop (h : IO.FS.Stream) (sel : List String) (c : Cur) : IO Unit := d
       loop h sel { c with obs := c.obs.push (.ret g cid cl' r), nlines := c.nlines + 1, calls := c.calls.filter (·.1 != cid) }
     | some .recover =>
       -- a fresh process: object names start again, so the model replays start again
-      loop h sel { c with obs := c.obs.push .recover, nlines := c.nlines + 1, res := .ok (Res.init 1), job := .ok {}, sig := .ok {}, sig2 := (if c.params.queues.any (fun q => q.startsWith "pers" || q.startsWith "dist") then .na "NA recovered adapter (its contents precede this process)" else .ok {}), metr := .ok {}, trim := .ok {}, reap := .ok {}, disp := .ok {}, fdisp := .ok {}, wake := (if c.params.queues.any (fun q => q.startsWith "pers" || q.startsWith "dist") then .na "NA recovered adapter" else .ok {}), pool := .ok {}, calls := [] }
+      loop h sel { c with obs := c.obs.push .recover, nlines := c.nlines + 1, res := .ok (Res.init 1), job := .ok {}, sig := .ok {}, sig2 := (if c.params.queues.any (fun q => q.startsWith "pers" || q.startsWith "dist") then .na "NA recovered adapter (its contents precede this process)" else .ok {}), metr := .ok {}, trim := .ok {}, reap := .ok {}, disp := .ok {}, fdisp := .ok {}, cap := .ok {}, wake := (if c.params.queues.any (fun q => q.startsWith "pers" || q.startsWith "dist") then .na "NA recovered adapter" else .ok {}), pool := .ok {}, calls := [] }
     | some o =>
       let obs := match parseObs2 line with | some o2 => (c.obs.push o).push o2 | none => c.obs.push o
       loop h sel { c with obs := obs, nlines := c.nlines + 1 }
